@@ -54,6 +54,7 @@ type WScenario struct {
 	QuietCycles    int           `json:"quiet_cycles"`
 	StableCycles   int           `json:"stable_cycles"`
 	ConfigVersion  int           `json:"-"`
+	LongAPIDown    bool          // churn variant: prom_api_down windows outlast max-idle-time and prefer pods that were just given targets
 }
 
 type WGen struct {
@@ -195,6 +196,13 @@ func GenWorld(tp *core.Tape, g WGen) *WScenario {
 			sc.FaultKinds = []string{core.Pick(tp, "churn_fault1", "sidecar_restart", "post_lost_after", "external_scale"), core.Pick(tp, "churn_fault2", "sidecar_restart", "post_lost_before", "shard_not_ready", "shard_unreachable")}
 			if g.ReloadFault {
 				sc.FaultKinds[0] = "prom_reload_fails"
+				// the sidecar's Prometheus API going away for longer than max-idle-time, right
+				// after an empty shard was refilled: whatever the sidecar says about itself
+				// meanwhile must not make a busy shard look idle since long ago
+				if tp.Bool("churn_api_down", 1, 3) {
+					sc.FaultKinds = []string{"prom_api_down"}
+					sc.LongAPIDown = true
+				}
 			}
 		}
 	}
